@@ -103,15 +103,37 @@ pub fn gen(s: &mut Src) -> GenDoc {
         _ => Some(dict(vec![("Type", name("ExtGState")), ("Font", arr(vec![rf(*fonts.last().unwrap()), Obj::Int(7)]))])),
     };
     // ---------------------------------------------------------------- resource kinds beyond fonts / XObjects / ExtGState
-    let extra = s.alt(5, &["no-extra-resource", "named-colorspace", "pattern-fill", "shading-op", "properties-name", "inline-image"]);
+    let extra = s.alt(5, &["no-extra-resource", "named-colorspace", "pattern-fill", "shading-op", "properties-name", "inline-image", "pattern-fill-own-resources", "separation-colorspace-first-page", "unreadable-xobject-first-page"]);
     let mut extra_res: Vec<(&str, Obj)> = Vec::new();
     let mut extra_ops = String::new();
+    let mut bad_xo: Option<u32> = None;
     match extra {
         1 => { extra_res.push(("ColorSpace", dict(vec![("C0", arr(vec![name("CalRGB"), dict(vec![("WhitePoint", arr(vec![Obj::Real(0.9505), Obj::Int(1), Obj::Real(1.089)]))])]))]))); extra_ops.push_str("/C0 cs 0.5 0.5 0.5 sc 0 0 3 3 re f "); }
         2 => {
             let pres = g.add(dict(vec![]));
             let p = g.add(stream(vec![("Type", name("Pattern")), ("PatternType", Obj::Int(1)), ("PaintType", Obj::Int(1)), ("TilingType", Obj::Int(1)), ("BBox", ints(&[0, 0, 5, 5])), ("XStep", Obj::Int(5)), ("YStep", Obj::Int(5)), ("Resources", rf(pres))], b"0 0 5 5 re f"));
             extra_res.push(("Pattern", dict(vec![("P0", rf(p))]))); extra_ops.push_str("/Pattern cs /P0 scn 0 0 3 3 re f ");
+        }
+        6 => {
+            // a tiling pattern whose content uses its own resources (one used graphics state, one unused entry)
+            let pgs = g.add(dict(vec![("Type", name("ExtGState")), ("LW", Obj::Real(2.5)), ("CA", Obj::Real(0.5))]));
+            let pres = g.add(dict(vec![("ExtGState", dict(vec![("G9", rf(pgs)), ("G8", dict(vec![("LW", Obj::Int(7))]))]))]));
+            let p = g.add(stream(vec![("Type", name("Pattern")), ("PatternType", Obj::Int(1)), ("PaintType", Obj::Int(1)), ("TilingType", Obj::Int(2)), ("BBox", ints(&[0, 0, 6, 6])), ("XStep", Obj::Int(6)), ("YStep", Obj::Int(6)),
+                ("Matrix", arr(vec![Obj::Int(2), Obj::Int(0), Obj::Int(0), Obj::Int(2), Obj::Int(1), Obj::Int(1)])), ("Resources", rf(pres))], b"/G9 gs 0 0 5 5 re f"));
+            extra_res.push(("Pattern", dict(vec![("P0", rf(p))]))); extra_ops.push_str("/Pattern cs /P0 scn 0 0 3 3 re f ");
+        }
+        7 => {
+            // a colour space the library can read but not write (its tint function has no writer): importing the page that
+            // uses it fails with an error value; the other pages of the selection must still give a document that can be saved.
+            // Only the first page carries it (pages with their own resource dictionary; shared dictionaries carry it for all).
+            let sep = arr(vec![name("Separation"), name("Spot"), name("DeviceCMYK"), dict(vec![("FunctionType", Obj::Int(2)), ("Domain", ints(&[0, 1])), ("C0", ints(&[0, 0, 0, 0])), ("C1", ints(&[0, 1, 1, 0])), ("N", Obj::Int(1))])]);
+            extra_res.push(("ColorSpace", dict(vec![("CS7", sep)]))); extra_ops.push_str("/CS7 cs 1 scn 0 0 3 3 re f ");
+        }
+        8 => {
+            // an XObject the first page names (and uses) that the library cannot read (no /Subtype): importing that page may fail
+            // with an error value; the pages imported successfully alongside it must still give a document that can be saved
+            let bad = g.add(stream(vec![("Type", name("XObject")), ("BBox", ints(&[0, 0, 1, 1]))], b"0 0 1 1 re f"));
+            bad_xo = Some(bad); extra_ops.push_str("/XBAD Do ");
         }
         3 => { extra_res.push(("Shading", dict(vec![("S0", dict(vec![("ShadingType", Obj::Int(2)), ("ColorSpace", name("DeviceRGB")), ("Coords", ints(&[0, 0, 1, 1])),
                 ("Function", dict(vec![("FunctionType", Obj::Int(2)), ("Domain", ints(&[0, 1])), ("C0", ints(&[0, 0, 0])), ("C1", ints(&[1, 1, 1])), ("N", Obj::Int(1))]))]))]))); extra_ops.push_str("/S0 sh "); }
@@ -134,6 +156,7 @@ pub fn gen(s: &mut Src) -> GenDoc {
         let mut xo: Vec<(String, Obj)> = images.iter().enumerate().map(|(i, f)| (format!("I{}", i), rf(*f))).collect();
         if img2 { xo.push(("I0b".into(), rf(images[0]))); }
         xo.extend(forms.iter().enumerate().map(|(i, f)| (format!("X{}", i), rf(*f))));
+        if let Some(b) = bad_xo { xo.push(("XBAD".into(), rf(b))); }
         if !xo.is_empty() { r.push(("XObject", d2(xo))); }
         if let Some(gs) = &gs { r.push(("ExtGState", dict(vec![("G0", gs.clone())]))); }
         r.extend(extra_res.iter().cloned());
@@ -145,7 +168,7 @@ pub fn gen(s: &mut Src) -> GenDoc {
     // reference cycles kill the importer (one known root cause); they get ~10% of the cases so that the rest stays covered
     let cycle = if s.draw(10) == 9 { 1 + s.draw(4) } else { 0 };
     let other_mode = if cycle > 0 { s.label(["cycle-via-other", "cycle-via-other-self", "cycle-via-other-ring", "cycle-via-other-page-backpointer"][cycle as usize - 1]); 6 + cycle as usize }
-        else { [0usize, 1, 2, 3, 4, 5, 6, 11, 12][s.alt(4, &["no-other", "other-scalars", "other-group-dict", "other-ref", "other-shared-ref", "other-stream-ref", "metadata-stream", "cycle-via-annot", "other-refs-nested-in-array"])] };
+        else { [0usize, 1, 2, 3, 4, 5, 6, 11, 12, 13][s.alt(4, &["no-other", "other-scalars", "other-group-dict", "other-ref", "other-shared-ref", "other-stream-ref", "metadata-stream", "cycle-via-annot", "other-refs-nested-in-array", "other-ref-dangling-inside-first-page"])] };
     let shared_other = if other_mode == 4 { Some(g.add(dict(vec![("Private", st("shared by all pages")), ("Data", rf(0))]))) } else { None };
     if let Some(n) = shared_other { let payload = g.add(stream(vec![], b"payload")); if let Some((_, o)) = g.objs.iter_mut().find(|(k, _)| *k == n) { o.set("Data", rf(payload)); } }
     for (pi, &pn) in page_objs.iter().enumerate() {
@@ -163,13 +186,15 @@ pub fn gen(s: &mut Src) -> GenDoc {
             if img2 { rxo.push(("I0b".into(), rf(images[0]))); ops.push_str("/I0b Do "); if ii != 0 { rxo.push(("I0".into(), rf(images[0]))); ops.push_str("/I0 Do "); } } }
         if !forms.is_empty() { let xi = forms.len() - 1 - (pi % forms.len()); rxo.push((format!("X{}", xi), rf(forms[xi]))); ops.push_str(&format!("/X{} Do ", xi)); }
         if gs.is_some() { ops.push_str("/G0 gs "); }
-        ops.push_str(&extra_ops);
+        if let Some(b) = bad_xo { if pi == 0 { rxo.push(("XBAD".into(), rf(b))); } }
+        let with_extra = (extra != 7 && extra != 8) || pi == 0;
+        if with_extra { ops.push_str(&extra_ops); }
         ops.push_str("1 0 0 RG 0 0 m 10 10 l S Q");
         let own_res = || -> Obj {
             let mut r: Vec<(&str, Obj)> = vec![("Font", d2(rfonts.clone()))];
             if !rxo.is_empty() { r.push(("XObject", d2(rxo.clone()))); }
             if let Some(gs) = &gs { r.push(("ExtGState", dict(vec![("G0", gs.clone())]))); }
-            r.extend(extra_res.iter().cloned());
+            if with_extra { r.extend(extra_res.iter().cloned()); }
             dict(r)
         };
         match res_mode { 0 => d.push(("Resources", own_res())), 1 => { let r = g.add(own_res()); d.push(("Resources", rf(r))); } 2 => d.push(("Resources", rf(shared_res_obj.unwrap()))), _ => {} }
@@ -199,6 +224,9 @@ pub fn gen(s: &mut Src) -> GenDoc {
             12 => { // references that sit below the direct elements of an array (array -> dictionary -> reference, array -> array -> reference)
                 let x = g.add(dict(vec![("Tag", st("nested x"))])); let y = g.add(stream(vec![], b"nested y"));
                 d.push(("PieceInfo", dict(vec![("App", dict(vec![("Private", arr(vec![dict(vec![("Inner", rf(x))]), arr(vec![Obj::Int(1), arr(vec![rf(y)])]), Obj::Int(7)]))]))])));
+            }
+            13 => { // first page only: a copied entry leads to an object that holds a reference to an undefined object (= null, 7.3.10)
+                if pi == 0 { let o = g.add(dict(vec![("App", dict(vec![("Private", rf(99_000)), ("LastModified", st("D:2021"))]))])); d.push(("PieceInfo", rf(o))); }
             }
             7 => { let a = g.reserve(); let b = g.reserve(); g.put(a, dict(vec![("Private", rf(b)), ("Tag", st("a"))])); g.put(b, dict(vec![("Back", rf(a)), ("Tag", st("b"))])); d.push(("PieceInfo", rf(a))); }
             8 => { let a = g.reserve(); g.put(a, dict(vec![("Self", rf(a)), ("Tag", st("self"))])); d.push(("PieceInfo", rf(a))); }
